@@ -3,6 +3,7 @@ from __future__ import annotations
 
 from rules import bec2
 from rules import stackbec2
+from rules import stackfile
 from rules import stackrt
 
 LEVEL = "other"
@@ -19,5 +20,6 @@ def run(prog, chk, tier):
     hdr = bec2.header_reader_rules(prog, chk, "C07")
     bec2.key_flow_rules(prog, chk, "C07", hdr)
     bec2.ecies_rules(prog, chk, "C07")
+    stackrt.guarded(chk, "C07.stack-bf3", stackfile.bf3_file_rules, prog, chk, "C07", tier, want=("rekey",))
     stackrt.guarded(chk, "C07.stack-bec2", stackbec2.bec2_file_rules, prog, chk, "C07", tier, want=("same-key", "fresh"))
     chk.assume("os.urandom and SigningKey.generate(entropy=None) deliver fresh randomness (not a static property)")
